@@ -78,6 +78,36 @@ def atom_facts(cond, truth):
             out.add(("size==0:" + p) if t else ("size>=1:" + p))
         return out
     if k == "bin" and e.get("op") in ("<", "<=", ">", ">="):
+        # (unsigned char)(x - '0') <= 9  /  < 10  : x is a digit
+        l1, r1 = e["l"], e["r"]
+        l1s = X.strip(l1)
+        vr = X.const_val(r1)
+        if isinstance(l1s, dict) and l1s.get("k") == "bin" and l1s.get("op") == "-" and X.const_val(l1s["r"]) == 48 \
+                and isinstance(l1, dict) and l1.get("k") == "cast" and "unsigned" in l1.get("ty", "") or \
+                (isinstance(l1s, dict) and l1s.get("k") == "bin" and l1s.get("op") == "-" and X.const_val(l1s.get("r")) == 48
+                 and isinstance(l1, dict) and l1.get("k") == "cast" and l1.get("ty") in ("uint8_t", "unsigned char")):
+            p = X.path(l1s["l"])
+            if p and vr is not None:
+                isdig = (e["op"] == "<=" and vr == 9) or (e["op"] == "<" and vr == 10)
+                if isdig and t:
+                    out.add("digit:" + p)
+                return out
+        # x >= 'c' / x <= 'c' on a byte-valued path
+        for a, b, opx in ((e["l"], e["r"], e["op"]), (e["r"], e["l"], {"<": ">", "<=": ">=", ">": "<", ">=": "<="}[e["op"]])):
+            vb = X.const_val(b)
+            b0 = X.strip(b)
+            pa = X.path(a)
+            if pa and vb is not None and isinstance(b0, dict) and b0.get("chr"):
+                o = opx if t else {"<": ">=", "<=": ">", ">": "<=", ">=": "<"}[opx]
+                if o == ">=":
+                    out.add("ge:%s:%d" % (pa, vb))
+                elif o == ">":
+                    out.add("ge:%s:%d" % (pa, vb + 1))
+                elif o == "<=":
+                    out.add("le:%s:%d" % (pa, vb))
+                elif o == "<":
+                    out.add("le:%s:%d" % (pa, vb - 1))
+                return out
         l, r = X.strip(e["l"]), X.strip(e["r"])
         op = e["op"]
         # normalise to  size OP const
@@ -173,6 +203,8 @@ def _apply_kills(facts, dead):
         p = f.split(":", 1)[1] if not f.startswith("alt:") else f.split(":", 2)[2]
         if f.startswith("eq:") or f.startswith("ne:"):
             p = p.split("==", 1)[0]
+        if f.startswith("ge:") or f.startswith("le:"):
+            p = p.rsplit(":", 1)[0]
         if any(p == d or p.startswith(d + ".") or p.startswith(d + "[") or d.startswith(p + ".") for d in dead):
             continue
         out.add(f)
